@@ -1,10 +1,13 @@
 package checks
 
 import (
+	"context"
 	"fmt"
 	"io"
+	"net"
 	"os"
 	"path/filepath"
+	"syscall"
 
 	"github.com/tormoder/fit"
 
@@ -19,14 +22,14 @@ func registerC11() {
 		ID:    "C11",
 		Level: "fault_enumeration",
 		Rule: "streams: PRNG model files of all 17 file types (<= ~700 bytes, both header sizes, unknown items, developer fields, compressed timestamps), short device " +
-			"files, and chains of 2-3 of them; for every stream EVERY byte offset c in [0, len] x {clean cut, injected non-EOF read error from c on: a private sentinel, io.ErrUnexpectedEOF, io.ErrClosedPipe, os.ErrClosed} x six entry points x " +
+			"files, and chains of 2-3 of them; for every stream EVERY byte offset c in [0, len] x {clean cut, injected non-EOF read error from c on: a private sentinel, io.ErrUnexpectedEOF, io.ErrClosedPipe, os.ErrClosed, and - rotating by offset, all of them at every file boundary - deadline / timeout / cancellation / connection-reset / path errors} x six entry points x " +
 			"{1-byte reads, greedy reads} is executed: c before the entry point's needed prefix => a non-nil error and (Decode, DecodeChained) a partial File holding exactly " +
 			"the messages of the records complete before c; c at or after it => the intact result; at every other offset Decode / DecodeChained run with all options on (second chunker): same error and messages, and the unknown-field / unknown-message lists of the partial File must lie between the model of the complete records and the model including the record in flight; clean EOF exactly on a file boundary of a chain => the files before it and " +
 			"nil; a fault on a boundary => error. The same cuts are also made on disk and read through *os.File (every third offset). Family large-streams: model streams of 9-40 KB (several refills of the decoder's 4096-byte buffer) cut/faulted at every offset within 40 bytes of a multiple of 4096, within 64 bytes of either end, and at every 211th offset in between, under 1000-byte and greedy chunkers, same oracle. A case is one (stream, offset, kind, entry point, chunker) execution; non-trivial: c lies strictly inside the stream; distinct by construction",
 		Assume:        []string{"partial content is compared on message slots (the file_id of a file whose file_id record is incomplete is not defined)"},
 		MinNontrivial: 5000,
 		Families: []lib.Family{
-			{Name: "streams", N: func(t string) uint64 { return tierN(t, 64, 4000) }, Run: c11Stream},
+			{Name: "streams", N: func(t string) uint64 { return tierN(t, 48, 4000) }, Run: c11Stream},
 			{Name: "large-streams", N: func(t string) uint64 { return tierN(t, 6, 300) }, Run: c11Large},
 		},
 		Exhaustive: func(string) bool { return false },
@@ -50,6 +53,19 @@ var faultKinds = []struct {
 	// error": bytes that arrive together with the end were delivered before it
 	{"clean cut, last bytes delivered together with io.EOF", nil, true},
 	{"read fault (sentinel error) delivered together with the last bytes", lib.ErrInjected, true},
+}
+
+// c11Timeout is an error of a type of its own that reports itself as a timeout.
+type c11Timeout struct{}
+
+func (c11Timeout) Error() string   { return "verif: i/o timeout" }
+func (c11Timeout) Timeout() bool   { return true }
+func (c11Timeout) Temporary() bool { return true }
+
+var c11MoreErrs = []error{
+	lib.ErrInjected, os.ErrDeadlineExceeded, context.DeadlineExceeded, context.Canceled, io.ErrNoProgress, io.ErrShortBuffer,
+	syscall.ECONNRESET, syscall.EINTR, syscall.EAGAIN, net.ErrClosed, os.ErrNotExist, c11Timeout{},
+	&os.PathError{Op: "read", Path: "/dev/fit", Err: syscall.EIO}, fmt.Errorf("wrapped: %w", os.ErrDeadlineExceeded),
 }
 
 type c11File struct {
@@ -180,7 +196,14 @@ func c11Run(c *lib.Ctx, rng *lib.Rand, idx uint64, nfiles int, large bool) {
 					if faultKinds[fault].withData {
 						ch.EOFWithData, ch.ErrWithData = true, true
 					}
-					r := &lib.Reader{Data: stream, Limit: cut, Fault: isFault, FaultErr: faultKinds[fault].err, Ch: ch}
+					ferr := faultKinds[fault].err
+					if fault == 1 {
+						// the first fault kind rotates through further error values real reader stacks
+						// return (deadlines, timeouts, resets ...): by offset here, all of them at
+						// every file boundary below
+						ferr = c11MoreErrs[(cut+int(idx))%len(c11MoreErrs)]
+					}
+					r := &lib.Reader{Data: stream, Limit: cut, Fault: isFault, FaultErr: ferr, Ch: ch}
 					var res lib.CallResult
 					// every other offset, the decoding entry points run with all options on (second
 					// chunker only): error and messages must be the same, and the unknown lists of
@@ -205,6 +228,28 @@ func c11Run(c *lib.Ctx, rng *lib.Rand, idx uint64, nfiles int, large bool) {
 						return
 					}
 				}
+			}
+		}
+	}
+	// Every further error value at every file boundary (and at the end of the stream): none of
+	// them is a clean end of input.
+	for _, bd := range append(append([]int{}, bounds...), len(stream)) {
+		for _, fe := range c11MoreErrs {
+			for _, ep := range []string{"DecodeChained", "Decode", "CheckIntegrity"} {
+				r := &lib.Reader{Data: stream, Limit: bd, Fault: true, FaultErr: fe, Ch: lib.Chunker{Kind: "greedy"}}
+				var res lib.CallResult
+				c11WithOpts = false
+				o := lib.Guard(func() { res = lib.Call(ep, r) })
+				c.Eval()
+				where := fmt.Sprintf("%s, read fault (%v) at offset %d of %d (a file boundary)", ep, fe, bd, len(stream))
+				if o.Panicked || o.Hang {
+					c.Violation(stream, "%s: panicked/hung: %s", where, o.Panic)
+					return
+				}
+				if !c11Judge(c, stream, where, ep, bd, true, need[ep], res, intact[ep], files, bounds) {
+					return
+				}
+				c.Count("boundary_faults_with_further_error_values", 1)
 			}
 		}
 	}
